@@ -67,6 +67,43 @@ Cases ==
   \cup {C("get entries", <<c>>) : c \in Ctxs \cup {VNull, VL(<<>>)}}
   \cup {C("string", <<x>>) : x \in Any1 \cup Strings \cup {VB(FALSE)}} \cup {C("string", <<>>)}
 
+\* the regular-expression family: syntax trees (Regex.tla) rendered as pattern text
+Re == INSTANCE Regex
+RAtoms == {Re!Chr(97), Re!Chr(98), Re!Chr(32), [r |-> "any"], [r |-> "cls", set |-> <<97, 98>>, neg |-> FALSE], [r |-> "cls", set |-> <<97>>, neg |-> TRUE],
+           [r |-> "rng", lo |-> 97, hi |-> 98, neg |-> FALSE], Re!Chr(46)}
+RUnary == {Re!Star(a) : a \in RAtoms} \cup {Re!Plus(a) : a \in RAtoms} \cup {Re!Opt(a) : a \in RAtoms} \cup {Re!Grp(a, 1) : a \in RAtoms}
+RSmall == {Re!Chr(97), Re!Chr(98), [r |-> "any"], Re!Plus(Re!Chr(97)), Re!Star(Re!Chr(98)), Re!Grp(Re!Chr(97), 1)}
+RBinary == {Re!Cat(a, b) : a \in RSmall, b \in RSmall \ {Re!Grp(Re!Chr(97), 1)}} \cup {Re!Alt(a, b) : a \in RSmall \ {Re!Grp(Re!Chr(97), 1)}, b \in {Re!Chr(98), Re!Plus(Re!Chr(97)), [r |-> "any"]}}
+RSpecial == {Re!Alt(Re!Cat(Re!Chr(97), Re!Chr(98)), Re!Chr(97)), Re!Alt(Re!Chr(97), Re!Cat(Re!Chr(97), Re!Chr(98))),           \* ab|a  a|ab : ordered alternation
+             Re!Cat(Re!Grp(Re!Plus(Re!Chr(97)), 1), Re!Chr(98)), Re!Cat(Re!Grp(Re!Chr(97), 1), Re!Grp(Re!Opt(Re!Chr(98)), 2)),
+             Re!Star(Re!Alt(Re!Chr(97), Re!Cat(Re!Chr(98), Re!Chr(97)))), Re!Cat(Re!Star([r |-> "any"]), Re!Chr(98)),                 \* greedy then backtrack
+             Re!Cat([r |-> "bol"], Re!Chr(97)), Re!Cat(Re!Chr(98), [r |-> "eol"]), Re!Plus(Re!Grp(Re!Alt(Re!Chr(97), Re!Chr(98)), 1)),
+             Re!Cat(Re!Chr(32), Re!Plus(Re!Chr(32)))}
+Regexes == RAtoms \cup RUnary \cup RBinary \cup RSpecial
+RStr3 == UNION {[1..k -> {97, 98, 32}] : k \in 0..3}
+RStrings == {VS(s) : s \in RStr3} \cup {VS(<<32, 97, 32>>), VS(<<97, 97, 98, 32, 97, 98>>), VS(<<98, 97, 46, 97, 98>>), VS(<<97, 98, 97, 98, 97>>), VS(<<32, 32, 97, 32, 32>>)}
+Reps == {VS(<<>>), VS(<<120>>), VS(<<91, 36, 49, 93>>), VS(<<36, 49, 36, 49>>), VS(<<60, 92, 36, 62>>), VS(<<36>>)}        \* "" x [$1] $1$1 <\$> $
+CR(f, args, re) == [fn |-> f, args |-> args, re |-> re]
+RegexCases ==
+  {CR("matches", <<s, VS(Re!Render(r))>>, r) : r \in Regexes, s \in RStrings}
+  \cup {CR("split", <<s, VS(Re!Render(r))>>, r) : r \in Regexes, s \in RStrings}
+  \cup {CR("replace", <<s, VS(Re!Render(r)), rep>>, r) : r \in Regexes, s \in RStrings, rep \in Reps}
+  \cup {CR("matches", <<s, VS(Re!Render(r)), VS(<<>>)>>, r) : r \in RSpecial, s \in {VS(<<97, 98>>), VS(<<98>>)}}
+  \cup {CR("replace", <<s, VS(Re!Render(r)), VS(<<120>>), VS(<<>>)>>, r) : r \in RSpecial, s \in {VS(<<97, 98>>), VS(<<98>>)}}
+  \cup {CR(f, <<x, VS(<<97>>)>>, Re!Chr(97)) : f \in {"matches", "split"}, x \in {VNull, VN(1, 0)}}
+  \cup {CR("replace", <<VS(<<97>>), VS(<<97>>), x>>, Re!Chr(97)) : x \in {VNull, VN(1, 0)}}
+ASSUME \A c \in RegexCases : PrintT(<<"CASE", ToJson(c)>>)
+ASSUME PrintT(<<"RCOUNT", Cardinality(Regexes), Cardinality(RegexCases)>>)
+
+\* number(from, grouping separator, decimal separator)
+NumTexts == {VS(<<49>>), VS(<<49, 50, 51>>), VS(<<49, 46, 53>>), VS(<<49, 44, 53>>), VS(<<49, 32, 48, 48, 48>>), VS(<<49, 44, 48, 48, 48, 46, 50, 53>>), VS(<<49, 46, 48, 48, 48, 44, 50, 53>>),
+             VS(<<45, 49, 50>>), VS(<<45, 46, 53>>), VS(<<46, 53>>), VS(<<49, 46>>), VS(<<>>), VS(<<97>>), VS(<<49, 101, 51>>), VS(<<49, 44, 50, 44, 51>>), VS(<<49, 50, 44, 51, 52>>),
+             VS(<<32, 49>>), VS(<<43, 49>>), VS(<<49, 48, 48, 44, 48, 48, 48>>), VS(<<48, 46, 48, 49, 48>>), VS(<<45>>), VS(<<49, 46, 50, 46, 51>>)}
+Seps == {VNull, VS(<<32>>), VS(<<44>>), VS(<<46>>), VS(<<59>>), VN(1, 0)}
+NumberCases == {C("number", <<t, g, d>>) : t \in NumTexts, g \in Seps, d \in Seps \ {VS(<<32>>)}}
+               \cup {C("number", <<x, VNull, VNull>>) : x \in {VNull, VN(1, 0), VB(TRUE)}} \cup {C("number", <<VS(<<49>>)>>), C("number", <<VS(<<49>>), VNull>>)}
+ASSUME \A c \in NumberCases : PrintT(<<"CASE", ToJson(c)>>)
+
 ASSUME \A c \in Cases : PrintT(<<"CASE", ToJson(c)>>)
 ASSUME PrintT(<<"COUNT", Cardinality(Cases)>>)
 VARIABLE v
